@@ -30,7 +30,7 @@ CHECKS = {
    text="The space of keys/revisions/bounds is finite and enumerated completely: round trip, order for all pairs, range and prefix bounds for all triples.",
    ref="4/C10", note="Trusted: bytes between the sampled alphabet bytes behave like their neighbours (the functions only copy and compare bytes)."),
  "C11": dict(cat="model_checking", tech="explicit-state search of each storage adapter against a sorted-map reference model (27 states x all batches x all iterator shapes)",
-   text="From each of the 27 states every single-operation batch (thorough: every ordered two-operation batch), Get/Del/DelCurrent (fresh and stale iterator) and every iterator shape (both directions, limits 0-2, bounds on, between, outside and proper prefixes of stored keys, with and without a stored key that extends another) is executed on memkv, badger, tikv-mock and each behind the metrics wrapper; result class and full contents are compared with the model after every transition.",
+   text="From each of the 27 states every single-operation and ordered two-operation batch (thorough: every ordered three-operation batch as well), Get/Del/DelCurrent (fresh and stale iterator) and every iterator shape (both directions, limits 0-2, bounds on, between, outside and proper prefixes of stored keys, with and without a stored key that extends another) is executed on memkv, badger, tikv-mock and each behind the metrics wrapper; result class and full contents are compared with the model after every transition.",
    ref="4/C11"),
  "C12": dict(cat="model_checking", tech="explicit-state BFS over sequential request histories, each executed on four engines; pairwise transcript comparison (differential oracle)",
    text="Every history up to the stated depth over a 15-operation alphabet is executed on memkv, badger, tikv-mock and metrics(badger); success flags, relative revisions, failure-branch values, reads at every revision and watch events must agree.",
